@@ -401,6 +401,20 @@ def r6(ctx):
     ctx.obligation(gated)
     if not gated:
         ctx.violation("parse_cond/not-applied", ctx.where(PARSE_COND), "negate_expr_op is not applied under `if <parity flag>`")
+    # the negation applies to the finished condition: a bare boolean column / function is first expanded to `.. = true`
+    # (negate_expr_op does nothing on a node without an operator), so every expansion site precedes the negation
+    order = list(walk_exprs(hir))
+    sites = [i for i, c in enumerate(order) if c["k"] == "Call" and str(c.get("callee", "")).endswith("Expr::op") and len(c["args"]) == 3 and
+             "Op::Eq" in render(c["args"][1]) and any(y["k"] == "Lit" and y.get("v") == "true" and y.get("lk") == "str" for y in walk_exprs(c["args"][2]))]
+    negs = [i for i, c in enumerate(order) if c["k"] in ("Call", "MCall") and (str(c.get("callee", "")).endswith(NEG_EXPR.rsplit("::", 1)[-1]) or c.get("m") == NEG_EXPR.rsplit("::", 1)[-1])
+            and not any(t[0] == "closure" for t in (guards_of(hir, c) or []))]
+    inside = lambda si, ni: any(y is order[si] for y in walk_exprs(order[ni]))      # expansion nested in the negation's argument
+    ok = bool(sites) and bool(negs) and all(si < ni or inside(si, ni) for si in sites for ni in negs)
+    ctx.obligation(ok)
+    if not ok:
+        ctx.violation("parse_cond/not-before-shorthand", ctx.where(PARSE_COND),
+                      "prefix NOT must be applied after a bare boolean column / function has been expanded to `column = true`: applied before, it finds "
+                      "no operator to negate and `not is_dir` means `is_dir`")
 
 
 def r7(ctx):
